@@ -25,7 +25,7 @@ def correspondence(ctx):
 
 def search(ctx, broken, corr_broken):
     global LAST_SEARCH_CANDIDATES
-    n = 1500 if ctx["tier"] == "quick" else 12000
+    n = 6000 if ctx["tier"] == "quick" else 40000
     LAST_SEARCH_CANDIDATES = n
     hits = clientcorr.run_monitors(ctx, n).get("C12", [])
     ss, c12hits = clientcorr.suite_framing(ctx, 400 if ctx["tier"] == "quick" else 4000)
